@@ -135,9 +135,14 @@ def pytask_execute_task_setup(session: Session, task: PTask) -> None:  # noqa: C
     # skip the checks as well.
     needs_to_be_executed = session.config["force"] or is_task_generator(task)
 
-    if not needs_to_be_executed:
+    if not is_task_generator(task):
         predecessors = set(dag.predecessors(task.signature)) | {task.signature}
         for node_signature in node_and_neighbors(dag, task.signature):
+            # Once it is clear that the task is executed, only the remaining
+            # dependencies need to be checked for existence.
+            if needs_to_be_executed and node_signature not in predecessors:
+                break
+
             node = dag.nodes[node_signature].get("task") or dag.nodes[
                 node_signature
             ].get("node")
@@ -159,10 +164,12 @@ def pytask_execute_task_setup(session: Session, task: PTask) -> None:  # noqa: C
                     )
                 raise NodeNotFoundError(msg)
 
+            if needs_to_be_executed:
+                continue
+
             has_changed = has_node_changed(task=task, node=node, state=node_state)
             if has_changed:
                 needs_to_be_executed = True
-                break
 
     if not needs_to_be_executed:
         collect_provisional_products(session, task)
